@@ -114,6 +114,18 @@ func (w *World) Sites(fn *ssa.Function, e Effect) []Site {
 						out = append(out, Site{in, b, "return " + clip(Render(rt.Results[e.Idx]).String(), 60)})
 					}
 				}
+			case "index":
+				// an element access x[i] of a slice / array whose term carries the atoms
+				switch x := in.(type) {
+				case *ssa.IndexAddr:
+					if Render(x.X).Has(e.Val...) {
+						out = append(out, Site{in, b, "index " + clip(Render(x.X).String(), 60)})
+					}
+				case *ssa.Index:
+					if Render(x.X).Has(e.Val...) {
+						out = append(out, Site{in, b, "index " + clip(Render(x.X).String(), 60)})
+					}
+				}
 			case "decision":
 				// a boolean the function's result depends on: a returned bool value, or a branch condition both of whose
 				// successors return a bool constant (the same comparison written `if c { return true }; return false`)
@@ -313,8 +325,9 @@ type GateOpts struct {
 	AnySiteReach bool // the effect must be REACHABLE from the failing edge of the check (best-effort semantics)
 	LoopAll      bool // the check sits in a loop over elements ("for all x: check(x)"): dominance is not required,
 	// only that the effect is unreachable from the failing edge without re-evaluating the check
-	Conditional bool // the check sits under a condition of its own (e.g. "only when a fee is due"): it need not dominate the effect, but the effect must be unreachable from its failing edge
-	LoopMaySkip bool // with LoopAll: some iterations legitimately do not evaluate the check (reviewed `continue` / `i > 0 &&`)
+	Conditional bool     // the check sits under a condition of its own (e.g. "only when a fee is due"): it need not dominate the effect, but the effect must be unreachable from its failing edge
+	LoopOver    []string // with LoopAll: the loop holding the check runs up to len(<term with these atoms>) exactly (not len-1, not a prefix)
+	LoopMaySkip bool     // with LoopAll: some iterations legitimately do not evaluate the check (reviewed `continue` / `i > 0 &&`)
 }
 
 // Gate: every site of effect e in function fnKey is gated by every cond.
@@ -373,6 +386,11 @@ func (r *Report) Gate(key, fnKey string, e Effect, conds []Cond, o GateOpts) {
 		nOK := 0
 		for i, s := range sites {
 			ok, _, detail := w.gatedBy(fn, ifs, s, c, o.LoopAll, o.LoopMaySkip, o.Conditional)
+			if ok && o.LoopAll && len(o.LoopOver) > 0 {
+				if why := w.loopBoundMismatch(fn, ifs, c, o.LoopOver); why != "" {
+					ok, detail = false, why
+				}
+			}
 			k := fmt.Sprintf("%s|%s|%s", key, fnKey, c.String())
 			if len(sites) > 1 {
 				k += fmt.Sprintf("#%d", i)
@@ -1318,7 +1336,18 @@ func HasRecoverBarrier(fn *ssa.Function) bool {
 					}
 				}
 			}
-			if hasRecover && setsErr {
+			if hasRecover && setsErr && recoverAlwaysSetsErr(cf, func(st *ssa.Store) bool {
+				fv, ok := st.Addr.(*ssa.FreeVar)
+				if !ok || !isErrorType(st.Val.Type()) || isNilConst(st.Val) {
+					return false
+				}
+				for i, f := range cf.FreeVars {
+					if f == fv && i < len(mc.Bindings) && named[mc.Bindings[i]] {
+						return true
+					}
+				}
+				return false
+			}) {
 				return true
 			}
 		}
@@ -1808,6 +1837,9 @@ func (r *Report) RetHas(key, fnKey string, idx int, atoms ...string) {
 // Disjunctive gating and boolean-flag provenance
 
 func RetValEff(idx int, atoms ...string) Effect { return Effect{Kind: "retval", Idx: idx, Val: atoms} }
+
+// IndexEff: an element access of a slice whose term carries the atoms.
+func IndexEff(atoms ...string) Effect { return Effect{Kind: "index", Val: atoms} }
 
 // DecisionEff: a boolean result or the branch condition that stands for it (see Sites).
 func DecisionEff(idx int, atoms ...string) Effect {
@@ -4290,4 +4322,90 @@ func lastInstr(b *ssa.BasicBlock) ssa.Instruction {
 		return nil
 	}
 	return b.Instrs[len(b.Instrs)-1]
+}
+
+// recoverAlwaysSetsErr: in the recover handler cf, every path from "recover() returned non-nil" to the end of the
+// handler passes a store accepted by isErrStore (the non-nil error written to the caller's named result). A handler
+// that sets the error only for some panic values (seed C08-14: only when the value implements error) turns the other
+// panics into a nil return - the failed send is then committed as a success.
+func recoverAlwaysSetsErr(cf *ssa.Function, isErrStore func(*ssa.Store) bool) bool {
+	var rec ssa.Value
+	for _, b := range cf.Blocks {
+		for _, in := range b.Instrs {
+			if c, ok := in.(*ssa.Call); ok && CalleeName(&c.Call) == "builtin.recover" {
+				rec = c
+			}
+		}
+	}
+	if rec == nil {
+		return false
+	}
+	sets := map[*ssa.BasicBlock]bool{}
+	for _, b := range cf.Blocks {
+		for _, in := range b.Instrs {
+			if st, ok := in.(*ssa.Store); ok && isErrStore(st) {
+				sets[b] = true
+			}
+		}
+	}
+	for _, b := range cf.Blocks {
+		ifi := ifOf(b)
+		if ifi == nil {
+			continue
+		}
+		bo, ok := ifi.Cond.(*ssa.BinOp)
+		if !ok || (bo.X != rec && bo.Y != rec) || (bo.Op != token.NEQ && bo.Op != token.EQL) {
+			continue
+		}
+		start := b.Succs[0] // r != nil
+		if bo.Op == token.EQL {
+			start = b.Succs[1]
+		}
+		seen := map[*ssa.BasicBlock]bool{}
+		ok2 := true
+		var walk func(x *ssa.BasicBlock)
+		walk = func(x *ssa.BasicBlock) {
+			if seen[x] || sets[x] || !ok2 {
+				return
+			}
+			seen[x] = true
+			if len(x.Succs) == 0 {
+				if !blockPanics(x) {
+					ok2 = false
+				}
+				return
+			}
+			for _, s := range x.Succs {
+				walk(s)
+			}
+		}
+		walk(start)
+		return ok2
+	}
+	return true // no test of the recovered value: the store is unconditional or the handler has another shape; keep the old verdict
+}
+
+// loopBoundMismatch: the innermost loop around a check matching c is bounded by `i < len(S)` with S carrying the atoms
+// (root-anchored len: `len(S)-1` or `len(S)/2` do not qualify). "" if it is.
+func (w *World) loopBoundMismatch(fn *ssa.Function, ifs []ifInfo, c Cond, atoms []string) string {
+	for _, ii := range ifs {
+		if m, _ := c.Match(ii.pred); !m {
+			continue
+		}
+		h, _ := iterationAlwaysPasses(fn, ii.b)
+		if h == nil {
+			continue
+		}
+		hi := ifOf(h)
+		if hi == nil {
+			return w.Pos(ifOf(ii.b).Cond.Pos()) + ": the loop holding the per-element check has no bound test"
+		}
+		p := NormalizeCond(hi.Cond)
+		pats := append([]string{"^len"}, atoms...)
+		if p.Op == "LSS" && ((p.B != nil && p.B.Has(pats...)) || (p.A != nil && p.A.Has(pats...))) {
+			return ""
+		}
+		return w.posOr(hi.Cond.Pos(), fn) + ": the loop holding the per-element check is bounded by " + clip(p.String(), 120) + ", not by the length of the whole collection"
+	}
+	return ""
 }
